@@ -36,7 +36,7 @@ PLANS = {
     "frame": [("cspuz/grid_frame.py", ["C14", "C06", "C10"], None)],
     "serializer": [("cspuz/problem_serializer.py", ["C15", "C16", "C17"], None)],
     "expr": [("cspuz/expr.py", ["C01", "C12"], None), ("cspuz/constraints.py", ["C01", "C12"], None)],
-    "solver": [("cspuz/solver.py", ["C01", "C02"], None), ("cspuz/backend/z3.py", ["C01"], None)],
+    "solver": [("cspuz/solver.py", ["C01", "C02", "C20", "C03"], None), ("cspuz/backend/z3.py", ["C01"], None)],
     "sugar": [("cspuz/backend/sugar_like.py", ["C03"], None), ("cspuz/backend/backend.py", ["C03", "C01"], None),
               ("cspuz/backend/_subproc.py", ["C03"], None)],
     "config": [("cspuz/configuration.py", ["C20"], None)],
